@@ -201,6 +201,13 @@ func init() {
 		}
 		return RunDec(opts, b)
 	}
+	caseRunners["spec"] = func(hdr []string, body string) string {
+		b, err := ParseBytes(body)
+		if err != nil {
+			return "BAD-CASE"
+		}
+		return RunSpecImpl(b)
+	}
 	caseRunners["dvb"] = func(hdr []string, body string) string {
 		b, err := ParseBytes(body)
 		if err != nil {
